@@ -123,7 +123,16 @@ static void array_checks() {
 		std::vector<long long> catv(cat.begin(), cat.end());
 		long long *heap = (long long *)malloc(sizeof(frg::array<long long, 3>));
 		auto *ha = new (heap) frg::array<long long, 3>{{base, base * 2, base * 3}};     // exact-size block: back() past the end is an ASan report
+		// the const twins of every accessor (a mutation campaign found that only the non-const back() was observed)
+		const auto &ca = a; const auto *cha = ha;
+		std::vector<long long> cidx, citer, criter;
+		for(size_t i = 0; i < ca.size(); i++) cidx.push_back(ca[i]);
+		for(auto it = ca.begin(); it != ca.end(); ++it) citer.push_back(*it);
+		for(auto it = ca.cbegin(); it != ca.cend(); ++it) criter.push_back(*it);
 		Ev("ArrayObs").raw("vals", jarr({base, base + 1, base + 2, base + 3})).raw("idx", jarr(idx)).raw("iter", jarr(iter))
+			.raw("cidx", jarr(cidx)).raw("citer", jarr(citer)).raw("cciter", jarr(criter)).i("cfront", ca.front()).i("cback", ca.back())
+			.i("chfront", cha->front()).i("chback", cha->back()).i("cdata0", *ca.data()).i("data0", *a.data()).i("cget3", frg::get<3>(ca))
+			.i("maxsize", (long long)a.max_size()).i("empty", a.empty() ? 1 : 0)
 			.i("front", a.front()).i("back", a.back()).i("hfront", ha->front()).i("hback", ha->back()).raw("hvals", jarr({base, base * 2, base * 3}))
 			.i("eq_same", a == same ? 1 : 0).i("eq_diff", a == diff ? 1 : 0).raw("cat", jarr(catv)).raw("catexp", jarr({base, base + 1, base + 2, base + 3, 7, 8, base}))
 			.i("get0", frg::get<0>(a)).i("get3", frg::get<3>(a)).i("size", (long long)a.size()).i("onefront", one.front()).i("oneback", one.back()).emit();
